@@ -540,3 +540,82 @@ Proof.
   split; [exact H1|]. split; [exact H2|]. split; [exact H3|]. exact (proj1 ex_mon_rejects).
 Qed.
 Print Assumptions C10_example_whole_run.
+
+(* ------------------------------------------------------------------------------------
+   Equal priorities, the whole run, with ONLY standard / syntactic hypotheses
+   (Sched/EqualStaticA.v, EqualStatic.v on top of Sched/Inert*.v).  The run-checked monitor
+   mon_run of C10_equal_priorities_whole_run is discharged for whole runs: Inv09 and the
+   invariant XI ("finished tasks are inert", Props/C09.v: C09_finished_tasks_inert) are threaded
+   through exec / step_task / run_one / do_action beside the monitor; under them uq s t holds for
+   EVERY task t (not done: at most one handle, Inv09; finished: no handle, XI) and rwfb is i_rwf.
+
+   Hypotheses on the run of the LIST loop from sl0 = init_st false ...:
+     actions_ok sl0 acts     C09's side condition (task_timeout's exit uses a block id it got
+                             from its enter);
+     nec sl0 acts            no action / library call of the run resolves, fails or
+                             cancels-as-a-future the future that belongs to a task (run-checked;
+                             implied by the syntactic Forall act_nf acts: no OSetResult / OSetExc /
+                             OFutCancel at all);
+     Forall act_pz acts      syntactic: every Spawn (SPrio p) / ASpawn (SPrio p) / OSetPrio p in the
+                             programs and actions of the run has p == 0 (pz: a coro tree all of
+                             whose priority arguments are == 0, for every reply).
+   No operation of the language is excluded. *)
+From Asynkit Require Import Sched.InertBase Sched.InertLib Sched.InertRun Sched.InertStatic Sched.EqualStaticA
+     Sched.EqualStatic.
+
+Theorem C10_equal_priorities_whole_run_static :
+  (* the monitor holds on every such run ... *)
+  (forall factor draws lks cds nev (acts : list action),
+     let sl0 := init_st false factor draws lks cds nev in
+     actions_ok sl0 acts -> nec sl0 acts -> Forall act_pz acts -> mon_run sl0 acts = true) /\
+  (* ... hence, after every prefix, the list loop and the priority loop (any boost factor, any
+     draws) agree on every component and on the run order of the ready queue *)
+  (forall factor draws lks cds nev (acts : list action),
+     let sl0 := init_st false factor draws lks cds nev in
+     let sp0 := init_st true factor draws lks cds nev in
+     actions_ok sl0 acts -> nec sl0 acts -> Forall act_pz acts ->
+     forall n,
+       let sl := fold_left do_action (firstn n acts) sl0 in
+       let sp := fold_left do_action (firstn n acts) sp0 in
+       handles sp = handles sl /\ futs sp = futs sl /\ tasks sp = tasks sl /\
+       locks sp = locks sl /\ conds sp = conds sl /\ events sp = events sl /\
+       blocks sp = blocks sl /\ timers sp = timers sl /\ now sp = now sl /\
+       current sp = current sl /\ log sp = log sl /\ errors sp = errors sl /\
+       rq_items (ready sp) = rq_items (ready sl) /\
+       RisoB 0 (ready sp) (ready sl) /\
+       (forall t, effective_priority sp t = effective_priority sl t /\ effective_priority sl t == 0)) /\
+  (* ... and in terms of the correspondence observation *)
+  (forall factor draws lks cds nev (acts : list saction),
+     let sl0 := init_st false factor draws lks cds nev in
+     actions_ok sl0 (map act acts) -> nec sl0 (map act acts) -> Forall act_pz (map act acts) ->
+     run_view (init_st true factor draws lks cds nev) acts = run_from sl0 acts) /\
+  (* the building blocks: under InvC + XI, inside steps too, every monitor check succeeds *)
+  (forall qok, QSpec qok ->
+     (forall c s t, InvC qok c s -> XI c s -> uq s t = true) /\
+     (forall c s t op, InvC qok c s -> XI c s -> op_pz op -> mon_lib t op s = true) /\
+     (forall c t c0, pz c0 -> forall s, coro_ok (List.length (blocks s)) c0 -> exec_nec t c0 s ->
+                     InvC qok c s -> XI c s -> mon_exec t c0 s = true)) /\
+  (* nec from the syntactic condition *)
+  (forall prio factor draws lks cds nev acts,
+     Forall act_nf acts -> nec (init_st prio factor draws lks cds nev) acts).
+Proof.
+  split; [exact mon_run_static|]. split.
+  - intros factor draws lks cds nev acts sl0 sp0 Ha Hn Hp n sl sp.
+    pose proof (equal_priorities_whole_run_static factor draws lks cds nev acts Ha Hn Hp n) as H.
+    fold sl0 sp0 in H. fold sl sp in H.
+    destruct (SimEq_order sl sp H) as (Hi & He & _).
+    destruct H. repeat split; auto; apply He.
+  - split; [exact equal_priorities_whole_run_obs_static|]. split; [|exact nec_static_init].
+    intros qok QS. split; [exact (uq_inert qok)|]. split; [exact (mon_lib_inert qok QS)|].
+    exact (mon_exec_inert qok QS).
+Qed.
+Print Assumptions C10_equal_priorities_whole_run_static.
+
+(* non-vacuity: the run of C10_example_whole_run satisfies the three hypotheses (actions_ok and
+   act_pz syntactically, nec through the static condition act_nf), so the monitor and the
+   simulation follow without computing the monitor *)
+Example C10_example_whole_run_static :
+  actions_ok ex_sl0 ex_acts /\ nec ex_sl0 ex_acts /\ Forall act_pz ex_acts /\
+  mon_run ex_sl0 ex_acts = true /\ SimEq ex_sl ex_sp /\
+  log ex_sp = [(1, 1%Z); (1, 2%Z); (3, 4%Z); (2, 3%Z); (3, 5%Z); (3, 8%Z); (1, 6%Z); (2, 7%Z)].
+Proof. exact equal_priorities_static_example. Qed.
